@@ -92,6 +92,7 @@ func c14Workload(cs *c14Case, res *c14Result) {
 	secondDone := cs.Second < 0
 	var asyncMu sync.Mutex
 	fs := fsOpts{Loader: "mmap", Merge: "happy", MemMerge: cs.MemMerge, Unsafe: cs.Unsafe}
+	freshDir(cs.Dir) // (a case can be run a second time by the child runner)
 	cfg := fsConfig(cs.Dir, fs, func(inner index.Directory) index.Directory {
 		rdir = mon.NewRDir(inner, cs.Dir)
 		rdir.Fault = func(idx int, p mon.Point) *mon.FaultSpec {
